@@ -25,10 +25,14 @@ RE_TR = re.compile(r"^\*?tr(\d+)$")
 #   ["reappend:K", 0, 0]    the last member of problem.<K> is removed and appended again (K = cell | surf | tr)
 #   ["geom+", c, s] / ["geom-", c, s]   cell c: geometry = geometry & +surface s / & -surface s   (s = card index)
 #   ["geom#", c, d]         cell c: geometry = geometry & ~cell d
+#   ["write", 0, 0]         problem.write_to_file(<scratch file>) in the middle of the history.  Writing is an observation:
+#                           it changes no number and no reference, and EVERY file written on the way is judged like the
+#                           last one (the history up to that point is a history of its own: `views`).
 # A geometry edit ADDS one reference (the new leaf, last in writing order) and removes none.
 REAPPEND = ("reappend:cell", "reappend:surf", "reappend:tr")
 GEOM_OPS = ("geom+", "geom-", "geom#")
-NEUTRAL = ("relink",) + REAPPEND + GEOM_OPS
+WRITE = "write"
+NEUTRAL = ("relink",) + REAPPEND + GEOM_OPS + (WRITE,)
 
 
 def is_number_op(op):
@@ -295,6 +299,35 @@ def _order(problem, objs):
     return out
 
 
+def _numbers(problem, objs):
+    return {
+        "cell": [c.number for c in objs["cell"]], "surf": [s.number for s in objs["surf"]],
+        "mat": [m.number for m in objs["mat"]], "tr": [t.number for t in objs["tr"]],
+        "univ": sorted([k, u.number] for k, u in objs["univ"].items()),
+        # the collections must still list the same objects (in the order the history implies)
+        "order": _order(problem, objs),
+    }
+
+
+def views(case, res):
+    """every file the history writes is judged: -> [(case, res, tag)] with one entry per intermediate write (the history
+    up to that write with the file written there; its "before" is what the run without renumberings wrote at the same
+    point) and the whole history with the last file as the final entry.  tag = None (final) or the index of the write."""
+    out = []
+    bmids = res.get("base_mids", [])
+    for j, mid in enumerate(res.get("mids", [])):
+        if j >= len(bmids):
+            break
+        b = bmids[j]
+        i = mid["at"]
+        out.append((dict(case, ops=case["ops"][:i]),
+                    dict(res, outs=res["outs"][:i], numbers=mid["numbers"], written=mid["text"], write=mid["write"],
+                         baseline=b["text"], base_outs=res["base_outs"][:b["nneutral"]], base_order=b["order"], mids=[], base_mids=[]),
+                    j))
+    out.append((case, res, None))
+    return out
+
+
 def run_impl(case):
     """case = {"text", "limit", "ops": [[kind, object, n], ...]} -> observations of the real code."""
     res = {"read": "ok", "outs": [], "numbers": None, "baseline": None, "written": None, "write": "ok"}
@@ -314,9 +347,15 @@ def run_impl(case):
             res["base_outs"] = []
             if neutral:
                 bobjs = _objects(base)
+                res["base_mids"] = []
                 for op in neutral:
                     try:
-                        apply_neutral(base, bobjs, op)
+                        if op[0] == WRITE:
+                            # the "before" of the history up to this write: the other operations so far, written here
+                            text = write_text(base, sc, f"base_mid{len(res['base_mids'])}.imcnp")
+                            res["base_mids"].append({"nneutral": len(res["base_outs"]), "order": _order(base, bobjs), "text": text})
+                        else:
+                            apply_neutral(base, bobjs, op)
                         res["base_outs"].append("ok")
                     except _Hang:
                         raise
@@ -338,7 +377,20 @@ def run_impl(case):
             res["numbers0"] = {"cell": [c.number for c in objs["cell"]], "surf": [s.number for s in objs["surf"]],
                                "mat": [m.number for m in objs["mat"]], "tr": [t.number for t in objs["tr"]],
                                "univ": sorted(k for k in objs["univ"] if k != 0)}
+            res["mids"] = []
             for kind, o, n in case["ops"]:
+                if kind == WRITE:
+                    mid = {"at": len(res["outs"]), "numbers": _numbers(problem, objs), "text": None, "write": "ok"}
+                    try:
+                        mid["text"] = write_text(problem, sc, f"mid{len(res['mids'])}.imcnp")
+                        res["outs"].append("ok")
+                    except _Hang:
+                        raise
+                    except Exception as e:  # noqa: BLE001
+                        mid["write"] = type(e).__name__ + ": " + str(e)[:200]
+                        res["outs"].append(type(e).__name__)
+                    res["mids"].append(mid)
+                    continue
                 if kind not in KINDS:
                     try:
                         apply_neutral(problem, objs, [kind, o, n])
@@ -362,13 +414,7 @@ def run_impl(case):
                     raise
                 except Exception as e:  # noqa: BLE001
                     res["outs"].append(type(e).__name__)
-            res["numbers"] = {
-                "cell": [c.number for c in objs["cell"]], "surf": [s.number for s in objs["surf"]],
-                "mat": [m.number for m in objs["mat"]], "tr": [t.number for t in objs["tr"]],
-                "univ": sorted([k, u.number] for k, u in objs["univ"].items()),
-                # the collections must still list the same objects (in the order the history implies)
-                "order": _order(problem, objs),
-            }
+            res["numbers"] = _numbers(problem, objs)
             try:
                 res["written"] = write_text(problem, sc)
             except _Hang:
@@ -799,6 +845,76 @@ def gen_history_neutral(rng, nf0):
     if is_number_op(out[-1]) and rng.random() < 0.8:
         out.append(gen_neutral_op(rng, nf0, touched))
     return out, "neutral+" + pattern
+
+
+def gen_history_writes(rng, nf0):
+    """renumbering histories with write_to_file calls in between (every file written is judged).  The patterns are those that
+    make an object pass through a number and leave it again across a write: return to the original number (undo), the number
+    left behind handed on to another object of the same kind, swaps / rotations / permutations carried out in stages with a
+    write after each stage; and every other pattern with writes at random places."""
+    nums = own_numbers(nf0)
+    handles = {k: list(range(len(v))) for k, v in nums.items() if k != "univ"}
+    handles["univ"] = list(nums["univ"])
+    kinds = [k for k in KINDS if handles[k]]
+    if not kinds:
+        return [], "empty"
+    w = [WRITE, 0, 0]
+    pattern = rng.choice(["return", "return", "hand-on", "hand-on", "staged", "staged", "random-writes", "random-writes", "there-and-back-all"])
+    if pattern in ("return", "hand-on"):
+        # preferably a kind/object something else points at
+        k = rng.choice(kinds)
+        i = rng.randrange(len(handles[k]))
+        n0 = nums[k][i]
+        used = set(nums[k])
+        tmp = rng.choice([x for x in list(range(1, 13)) + [rng.randint(13, 999)] * 4 if x not in used] or [max(used) + 1])
+        ops = [[k, handles[k][i], tmp], w]
+        if rng.random() < 0.3:
+            tmp2 = max(used | {tmp}) + rng.randint(1, 50)
+            ops += [[k, handles[k][i], tmp2], w]   # a second stop on the way
+            tmp = tmp2 if rng.random() < 0.5 else tmp
+        ops.append([k, handles[k][i], n0])
+        if pattern == "hand-on" and len(handles[k]) >= 2:
+            j = rng.choice([x for x in range(len(handles[k])) if x != i])
+            if rng.random() < 0.3:
+                ops.append(w)
+            ops.append([k, handles[k][j], tmp])   # another object of the kind takes the number just left
+        if rng.random() < 0.3:
+            ops.append(w)
+            if rng.random() < 0.5:
+                ops.append(gen_neutral_op(rng, nf0))
+        return ops, "writes+" + pattern
+    if pattern == "there-and-back-all":
+        # every object of every kind +1000, write, and back
+        ops = []
+        for kk in kinds:
+            for i in sorted(range(len(nums[kk])), key=lambda i: -nums[kk][i]):
+                ops.append([kk, handles[kk][i], nums[kk][i] + 1000])
+        ops.append(w)
+        for kk in kinds:
+            for i in sorted(range(len(nums[kk])), key=lambda i: nums[kk][i]):
+                if rng.random() < 0.8:
+                    ops.append([kk, handles[kk][i], nums[kk][i]])
+        return ops, "writes+" + pattern
+    base = rng.choice(["swap", "rotate", "permute", "restore", "coincide", "mixed"] if pattern == "staged" else
+                      ["swap", "rotate", "permute", "restore", "coincide", "mixed", "shift", "random", "collide", "single"])
+    ops, base = gen_history(rng, nf0, base)
+    if not ops:
+        return ops, base
+    out = []
+    if pattern == "staged":
+        for op in ops:   # a write after (almost) every stage
+            out.append(op)
+            if rng.random() < 0.7:
+                out.append(w)
+    else:
+        out = list(ops)
+        for _ in range(rng.choice([1, 1, 2, 3])):
+            out.insert(rng.randint(1, len(out)), w)
+        if rng.random() < 0.3:
+            out.insert(rng.randint(0, len(out)), gen_neutral_op(rng, nf0))
+    while out and out[-1] == w:
+        out.pop()   # the last write is the one every case ends with
+    return out, "writes+" + pattern + ":" + base
 
 
 def shrink_text(text, still_fails, budget=60):
